@@ -51,6 +51,30 @@ fn err_variants_in(src: &str, errs: &[bwl::Error]) -> Vec<String> {
         .collect()
 }
 
+/// `file:line: message` -> `file: message class`. Line numbers move when unrelated fixes
+/// land in the same file, and messages can quote the input, so a panic is identified by its
+/// file and the kind of failure.
+fn panic_class(m: &str) -> String {
+    let mut parts = m.splitn(3, ':');
+    let file = parts.next().unwrap_or("?");
+    let _line = parts.next();
+    let msg = parts.next().unwrap_or("").trim();
+    let class = if msg.contains("not a char boundary") {
+        "slice not on a char boundary".to_string()
+    } else if msg.starts_with("begin > end") || msg.starts_with("slice index starts at") || msg.contains("out of range for") {
+        "slice out of order or out of range".to_string()
+    } else if let Some(i) = msg.find("attempt to ") {
+        msg[i..].chars().take_while(|c| c.is_ascii_alphabetic() || *c == ' ').collect::<String>().trim().to_string()
+    } else if msg.contains("on a `None` value") {
+        "unwrap on None".to_string()
+    } else if msg.contains("on an `Err` value") {
+        "unwrap on Err".to_string()
+    } else {
+        msg.chars().take(40).map(|c| if c.is_ascii_digit() { '#' } else { c }).collect()
+    };
+    format!("{file}: {class}")
+}
+
 fn print_h(list: &[ds::Horizontal], style: u32) -> String {
     let mut s = String::new();
     if style == 1 {
@@ -247,7 +271,7 @@ impl C18 {
         }
         let text = match printed {
             Err(p) => {
-                out.fail(Kind::ImplPanic, stream, format!("print panic {}", strip_msg(&p)), p);
+                out.fail(Kind::ImplPanic, stream, format!("print panic {}", panic_class(&p)), p);
                 return;
             }
             Ok(t) => t,
@@ -258,7 +282,7 @@ impl C18 {
                 out.fail(
                     Kind::ImplPanic,
                     stream,
-                    format!("parse panic {}", strip_msg(&p)),
+                    format!("parse panic {}", panic_class(&p)),
                     format!("{p}\nprinted text: {text}"),
                 );
             }
@@ -361,7 +385,7 @@ impl C18 {
         for (what, r) in [("parse_h", h.as_ref().err()), ("parse_v", v.as_ref().err()), ("format", f.as_ref().err())] {
             if let Some(p) = r {
                 out.tag(format!("{what}:panic"));
-                out.fail(Kind::ImplPanic, stream_t, format!("panic {}{attr}", strip_msg(p)), format!("{what}: {p}"));
+                out.fail(Kind::ImplPanic, stream_t, format!("panic {}{attr}", panic_class(p)), format!("{what}: {p}"));
             }
         }
         match &h {
@@ -379,7 +403,7 @@ impl C18 {
                         out.fail(
                             Kind::ImplVsSpec,
                             stream_t,
-                            format!("error {name} is not located: a label's span is not a valid range of the source"),
+                            format!("error {name} is not located: a label's span is not a valid range of the source{attr}"),
                             format!("errors {e:?}"),
                         );
                     }
@@ -400,7 +424,7 @@ impl C18 {
                 out.tag("format:ok");
                 fmt_text = Some(ft.clone());
                 match caught(|| real_format(ft)) {
-                    Err(p) => out.fail(Kind::ImplPanic, stream_f, format!("panic {}", strip_msg(&p)), format!("format(format(s)): {p}")),
+                    Err(p) => out.fail(Kind::ImplPanic, stream_f, format!("panic {}", panic_class(&p)), format!("format(format(s)): {p}")),
                     Ok(Ok(ff)) => {
                         if &ff != ft {
                             out.fail(
@@ -423,7 +447,7 @@ impl C18 {
                 // meaning preservation, horizontal and vertical reading
                 if let Ok(hs) = &h {
                     match caught(|| parse_h(ft)) {
-                        Err(p) => out.fail(Kind::ImplPanic, stream_f, format!("panic {}", strip_msg(&p)), format!("parse(format(s)): {p}")),
+                        Err(p) => out.fail(Kind::ImplPanic, stream_f, format!("panic {}", panic_class(&p)), format!("parse(format(s)): {p}")),
                         Ok(hf) => {
                             let sig = match (hs, &hf) {
                                 (Ok(a), Ok(b)) if a == b => None,
